@@ -35,10 +35,24 @@ def parse_sent(data):
         toks = line.split(b" ")
         kind = toks[0].decode("latin1")
         params = {}
-        for t in toks[1:]:
+        j = 1
+        while j < len(toks):
+            t = toks[j]
+            j += 1
             if b"=" in t:
                 k, v = t.split(b"=", 1)
-                params[k.decode("latin1").split(":")[0]] = v
+                name = k.decode("latin1")
+                if ":" in name:
+                    # an array parameter `name:N=v1 v2 .. vN`: the following N-1 tokens belong to it (plain values only)
+                    try:
+                        cnt = int(name.split(":", 1)[1])
+                    except ValueError:
+                        cnt = 1
+                    extra = toks[j:j + max(0, cnt - 1)]
+                    if all(b"=" not in x for x in extra):
+                        v = b" ".join([v] + extra)
+                        j += len(extra)
+                params[name.split(":")[0]] = v
         i = nl + 1
         pl = None
         if kind in ("BROADCAST", "MOD_DIRECT", "MESSAGE", "M2S_MOD_DIRECT") and b"length" in [k.encode() for k in params]:
@@ -59,6 +73,8 @@ class Tracker:
         self.live = set()
         self.members = {}       # channel full id (bytes) -> set of nid bytes
         self.read_acl_touched = set()
+        self.acl = {}           # (channel, type) -> set of entries, tracked from the channel's creation through acknowledged updates
+        self.acl_plain = {}     # channel -> False once an entry that is not a plain nid / domain was acknowledged
         self.cfg_touched = set()
         self.owner = {}         # channel -> nid of the owner as announced to the clients (None = not known)
         self.spelling = {}      # raw IDENTIFY username bytes -> NID the server assigned for that spelling
@@ -215,12 +231,44 @@ class Tracker:
                     who = params.get("on_behalf", me)
                     if not members_before.get(ch):
                         self.owner[ch] = who
+                        for ty in (b"join", b"publish", b"read"):      # a fresh channel: every allow-list is empty
+                            self.acl[(ch, ty)] = {}
+                        self.acl_plain[ch] = True
                     self.members.setdefault(ch, set()).add(who)
                     acked_joins.append((ch, who, k0))
                 if kind == "LEAVE" and "LEAVE_ACK" in names:
                     who = params.get("on_behalf", me)
                     self.members.get(ch, set()).discard(who)
                     acked_leaves.append((ch, who, k0))
+                    if not self.members.get(ch):
+                        for ty in (b"join", b"publish", b"read"):      # the emptied channel is gone, its lists with it
+                            self.acl.pop((ch, ty), None)
+                if kind == "SET_CHAN_ACL" and "SET_CHAN_ACL_ACK" in names and (ch, params.get("type")) in self.acl:
+                    # the allow-list as the acknowledged updates build it: per domain a set of users; a domain without users
+                    # stands for the whole domain (reported as the bare domain)
+                    ents = [n for n in params.get("nids", b"").split(b" ") if n]
+                    if not all(re.fullmatch(rb"[a-z0-9]+@[a-z0-9.]+|[a-z0-9.]+", n) for n in ents):
+                        self.acl_plain[ch] = False
+                    lst = self.acl[(ch, params["type"])]
+                    for n in ents:
+                        user, dom = (n.split(b"@", 1) + [None])[:2] if b"@" in n else (b"", n)
+                        if params.get("action") == b"add":
+                            d = lst.setdefault(dom, set())
+                            if user:
+                                d.add(user)
+                        elif params.get("action") == b"remove":
+                            if dom in lst:
+                                lst[dom].discard(user)
+                                if not lst[dom]:
+                                    del lst[dom]
+                        else:
+                            self.acl_plain[ch] = False
+                if kind == "GET_CHAN_ACL" and "CHAN_ACL" in names and "page" not in params and "page_size" not in params \
+                        and (ch, params.get("type")) in self.acl and self.acl_plain.get(ch):
+                    rep = fget([f for f in myf if fname(f) == "CHAN_ACL"][0], "nids")
+                    want = sorted(x for dom, us in self.acl[(ch, params["type"])].items() for x in ([u + b"@" + dom for u in us] or [dom]))
+                    if sorted(rep) != want and len(want) <= 20:
+                        self.viol.append(("C03", f"the {params['type'].decode()} list of {ch.decode()} is reported as {sorted(rep)}; the acknowledged updates since the channel was created give {want}", t))
                 if kind == "SET_CHAN_ACL" and "SET_CHAN_ACL_ACK" in names and params.get("type") == b"read":
                     self.read_acl_touched.add(ch)
                 if kind == "SET_CHAN_ACL" and "SET_CHAN_ACL_ACK" in names and params.get("type") == b"publish":
@@ -249,6 +297,7 @@ class Tracker:
                     for c in self.members.values():
                         c.discard(u)
             self.members = {c: m for c, m in self.members.items() if m}
+            self.acl = {key: v for key, v in self.acl.items() if key[0] in self.members}
             # ---- C04: one owner; when the owner leaves (request or last connection gone) a remaining member is
             #      announced as the new owner (MEMBER_JOINED owner=true) to the remaining members
             announced = {}
@@ -380,8 +429,21 @@ class Tracker:
                 self.viol.append(("C02" if not mod else "C08", f"payload delivered to conn {k} differs from the accepted payload", t))
             if fget(f, "from") != me:
                 self.viol.append(("C07", f"MESSAGE from={fget(f, 'from')} but the sender is {me}", t))
-        if "BROADCAST_ACK" in names and expect is not None and ch not in self.read_acl_touched:
+        readers = self.acl.get((ch, b"read")) if self.acl_plain.get(ch) else None
+        if readers:
+            # C01: nobody outside the read list the acknowledged updates add up to receives the payload
+            for k, f in msgs:
+                u = self.user.get(k)
+                if u is not None:
+                    un, _, ud = u.partition(b"@")
+                    if not (ud in readers and (not readers[ud] or un in readers[ud])):
+                        self.viol.append(("C01", f"MESSAGE of {ch} delivered to conn {k} ({u}) which the channel's read list {sorted(x for d, us in readers.items() for x in ([n + b'@' + d for n in us] or [d]))} does not permit", t))
+        if "BROADCAST_ACK" in names and expect is not None and (ch not in self.read_acl_touched or readers is not None):
             for u in members_before.get(ch, set()):
+                if ch in self.read_acl_touched and readers:
+                    un, _, ud = u.partition(b"@")
+                    if not (ud in readers and (not readers[ud] or un in readers[ud])):
+                        continue        # not permitted by the read list the acknowledged updates add up to
                 for k in self.conns_of(u):
                     if k == k0 or k == self.case.get("stalled_resume"):
                         continue      # (a deliberately stalled reader is judged by stalled_resume_check once it reads on)
